@@ -369,6 +369,10 @@ func createUpstreamRequest(rw http.ResponseWriter, r *http.Request) (*http.Reque
 
 	outreq := r.WithContext(ctx) // includes shallow copies of maps, but okay
 
+	// "Connection: close" from the client is about its own connection,
+	// not about the one to the backend.
+	outreq.Close = false
+
 	// We should set body to nil explicitly if request body is empty.
 	// For server requests the Request Body is always non-nil.
 	if r.ContentLength == 0 {
